@@ -25,17 +25,41 @@ Definition history (w : rw) (now : Z) : Z * Z :=
 Definition excess2 (accepts total : Z) : Z := 2 * (total - protection) - k2 * accepts.
 
 Inductive outcome := OK | AcceptableErr | UnacceptableErr | Panics.
-Inductive kind := KDo | KDoWithAcceptable | KDoWithFallback | KDoWithFallbackAcceptable.
+(* the caller's acceptable-predicate, as a table over the outcomes of req: any predicate is some such
+   table; the driver uses these four.  A predicate may REJECT a nil error (it judges something else,
+   e.g. a captured response code) and may accept non-nil errors. *)
+Inductive pred :=
+| PNilOrAcc        (* err == nil || err == the acceptable error *)
+| PRejectsNil      (* only the acceptable error passes; nil does NOT *)
+| PAll             (* every error (and nil) passes *)
+| PNone.           (* nothing passes *)
+
+Definition pred_ok (p : pred) (o : outcome) : bool :=
+  match o, p with
+  | Panics, _ => false                                  (* the predicate is not consulted: googlebreaker.go:71-76 *)
+  | OK, (PNilOrAcc | PAll) => true
+  | OK, _ => false
+  | AcceptableErr, PNone => false
+  | AcceptableErr, _ => true
+  | UnacceptableErr, PAll => true
+  | UnacceptableErr, _ => false
+  end.
+
+Inductive kind :=
+| KDo | KDoWithAcceptable | KDoWithFallback | KDoWithFallbackAcceptable      (* the last two of the four with PNilOrAcc *)
+| KDoWithAcceptableP (p : pred) | KDoWithFallbackAcceptableP (p : pred).
 
 Definition has_fallback (k : kind) : bool :=
-  match k with KDoWithFallback | KDoWithFallbackAcceptable => true | _ => false end.
-(* Do/DoWithFallback use defaultAcceptable (err == nil), breaker.go:114-132: an "acceptable error"
-   is only acceptable to the caller-supplied predicate *)
+  match k with KDoWithFallback | KDoWithFallbackAcceptable | KDoWithFallbackAcceptableP _ => true | _ => false end.
+
+(* Do/DoWithFallback use defaultAcceptable (err == nil), breaker.go:114-132; the other two pass the
+   caller's predicate through loggedThrottle.doReq (breaker.go:156-164) to googleBreaker.doReq :79 *)
+Definition uses_default (k : kind) : bool := match k with KDo | KDoWithFallback => true | _ => false end.
 Definition acceptable (k : kind) (o : outcome) : bool :=
-  match o with
-  | OK => true
-  | AcceptableErr => match k with KDoWithAcceptable | KDoWithFallbackAcceptable => true | _ => false end
-  | _ => false
+  match k with
+  | KDo | KDoWithFallback => match o with OK => true | _ => false end
+  | KDoWithAcceptable | KDoWithFallbackAcceptable => pred_ok PNilOrAcc o
+  | KDoWithAcceptableP p | KDoWithFallbackAcceptableP p => pred_ok p o
   end.
 
 (* what the caller of doReq observes *)
